@@ -24,6 +24,27 @@ fn args() -> (String, HashMap<String, String>) {
     (cmd, m)
 }
 
+/// TLC's JSON module has no null
+fn strip_nulls(j: &mut J) {
+    match j {
+        J::Object(m) => {
+            let ks: Vec<String> = m.iter().filter(|(_, v)| v.is_null()).map(|(k, _)| k.clone()).collect();
+            for k in ks {
+                m.remove(&k);
+            }
+            for v in m.values_mut() {
+                strip_nulls(v);
+            }
+        }
+        J::Array(a) => {
+            for v in a {
+                strip_nulls(v);
+            }
+        }
+        _ => {}
+    }
+}
+
 fn cfg_of(name: &str) -> gen::Cfg {
     match name {
         "full" => gen::Cfg::full(),
@@ -302,6 +323,78 @@ fn main() {
                         emit("BD", &sj, &st, &mut i);
                     }
                 }
+            }
+        }
+        "record-rulegen" | "replay-rulegen" => {
+            // C19: templates (generated, or enumerated by MC_Rulegen: --in) -> the real rulegen command ->
+            // its output parsed by the real parser and evaluated on the template and on mutations of it
+            let seed: u64 = m.get("seed").and_then(|s| s.parse().ok()).unwrap_or(1);
+            let n: usize = m.get("n").and_then(|s| s.parse().ok()).unwrap_or(100);
+            let hard = m.get("hard").map(|v| v == "1").unwrap_or(false);
+            let out = m.get("out").expect("--out");
+            let scratch = m.get("scratch").expect("--scratch");
+            let mut f = std::io::BufWriter::new(std::fs::File::create(out).unwrap());
+            let mut r = Rng::new(seed);
+            let mut docs: Vec<(J, bool)> = Vec::new();
+            if cmd == "replay-rulegen" {
+                for l in std::fs::read_to_string(m.get("in").expect("--in")).unwrap().lines() {
+                    if !l.trim().is_empty() {
+                        docs.push((serde_json::from_str(l).unwrap(), false));
+                    }
+                }
+            } else {
+                for k in 0..n {
+                    let mut rr = r.fork();
+                    let uniform = k % 4 != 3;
+                    let mut g = gv::rulegen::TGen { r: &mut rr, hard };
+                    docs.push((g.template(uniform), uniform));
+                }
+            }
+            for (k, (doc, uniform)) in docs.iter().enumerate() {
+                let mut rr = r.fork();
+                let text = val::to_json_text(doc);
+                let res = gv::rulegen::run_rulegen(&text, scratch);
+                let mut line = json!({"i": k + 1, "doc": doc, "uniform": uniform, "template": text});
+                let mut outj = json!({"kind": res["kind"], "msg": res["msg"], "rules": [], "odd": 0, "parses": false});
+                if res["kind"] == "ok" {
+                    let rules_text = res["text"].as_str().unwrap().to_string();
+                    outj["text"] = json!(rules_text);
+                    outj["stderr"] = res["stderr"].clone();
+                    if rules_text.trim().is_empty() {
+                        // nothing printed: no resource type with properties (or an error on stderr)
+                        outj["parses"] = json!(true);
+                        outj["empty"] = json!(true);
+                    } else {
+                        let pt = exec::parse_tree(&rules_text);
+                        if pt["kind"] == "ok" {
+                            outj["parses"] = json!(true);
+                            let ex = gv::rulegen::extract(&pt["ast"]);
+                            outj["rules"] = ex["rules"].clone();
+                            outj["odd"] = ex["odd"].clone();
+                            let mut obs = exec::observe(&rules_text, &text, false);
+                            if let Some(o) = obs.as_object_mut() { o.remove("tree"); }
+                            line["obs"] = obs;
+                            let mut muts = Vec::new();
+                            for _ in 0..3 {
+                                if let Some((ty, p, d2)) = gv::rulegen::mutate(doc, &mut rr) {
+                                    let mut o2 = exec::observe(&rules_text, &val::to_json_text(&d2), false);
+                                    if let Some(o) = o2.as_object_mut() { o.remove("tree"); }
+                                    muts.push(json!({"type": val::cps(&ty), "prop": val::cps(&p), "doc": d2, "obs": o2}));
+                                }
+                            }
+                            line["muts"] = json!(muts);
+                        } else {
+                            outj["pterr"] = pt;
+                        }
+                    }
+                }
+                line["out"] = outj;
+                if line.get("obs").is_none() {
+                    line["obs"] = json!({"kind": "none"});
+                    line["muts"] = json!([]);
+                }
+                strip_nulls(&mut line);
+                writeln!(f, "{}", line).unwrap();
             }
         }
         "record-events" => {
